@@ -24,12 +24,7 @@ def run(tier):
     profiles.normalizer_shape(prog, rep, "normalization_form_nfc", "nfc")
     # the directionality step is `has_rtl(s) ? Bidi rule : ok`; when it applies is part of "all rules, in order"
     # (the Bidi rule's own language is C09)
-    from . import C09
-
-    sub = Report("C09", tier, "directionality wrapper")
-    C09.has_rtl_set(prog, sub)
-    C09.directionality_table(prog, sub)
-    rep.include(sub, "C09")
+    profiles.include_leaves(rep, [("C11", "width mapping rule"), ("C10", "case mapping rule"), ("C09", "directionality rule: has_rtl gate and the Bidi rule"), ("C14", "derived property behind IdentifierClass"), ("C02", "IdentifierClass::allows")])
     rep.extra["exhaustive"] = True
-    rep.assumptions += ["the leaf rules' own semantics are decided by C09 (directionality), C10 (case), C11 (width), C02/C14 (IdentifierClass)"]
+    rep.assumptions += ["the leaf rules' own semantics are the obligations of C09 (directionality), C10 (case), C11 (width), C02/C14 (IdentifierClass), adopted here as dependencies"]
     return rep
